@@ -18,6 +18,10 @@ func init() {
 		Assumptions: []string{"all goroutines reach the forest only through the package's exported functions and methods", "a single MapPollard instance is involved in each call (no function handles two instances)"},
 		Rules: []RuleDef{
 			{ID: "R12", Statement: "lockset discipline for the struct carrying the RWMutex", Run: runLockset},
+			{ID: "R12h", Statement: "the mutex of a live forest is never replaced", Run: func(p *Program, r *Report) {
+				r.Rule("R12h", "LOCK-NEVER-REPLACED: no live instance of the struct that carries the lock is overwritten as a whole, and its lock field is never re-assigned (everybody has to lock the same mutex)")
+				checkLockNeverReplaced(p, r, "R12h")
+			}},
 			{ID: "R12g", Statement: "one critical section per exported method, callees included", Run: func(p *Program, r *Report) {
 				r.Rule("R12g", "ATOMIC-QUERY: every exported method of the map forest enters at most one critical section on any path, counting the sections of the functions it calls (a query assembled from separately locked getters can mix two block states)")
 				acq := transitiveAcquirers(p)
